@@ -92,23 +92,54 @@ Print Assumptions C11_ista_run_split_partial.
 (* partial: only when the earlier instalment was ended by its budget; after a
    tolerance stop re-entering run performs one more step (xupdate = inf) *)
 Example C11_ista_run_split_nonvacuous :
-  ok (iS 0) (runL (iS 0) 2 (enter (iS 0) fp0)) = true /\ obs_is (run (iS 0) 4 (run (iS 0) 2 fp0)) = obs_is (run (iS 0) 4 fp0) /\
-  ii (run (iS 0) 4 fp0) = 4.
+  ok (iS 0) (runL (iS 0) 2 (enter (iS 0) ip0)) = true /\ obs_is (run (iS 0) 4 (run (iS 0) 2 ip0)) = obs_is (run (iS 0) 4 ip0) /\
+  ii (run (iS 0) 4 ip0) = 4.
 Proof. exact ista_split_example. Qed.
 Theorem C11_ista_resume_after_tol_stop_refuted :
-  let S0 := iS (Q2Qc 10) in ii (run S0 4 fp0) = 1 /\ ii (run S0 4 (run S0 3 fp0)) = 2.
+  let S0 := iS (Q2Qc 10) in ii (run S0 4 ip0) = 1 /\ ii (run S0 4 (run S0 3 ip0)) = 2.
 Proof. exact ista_resume_after_tol_stop_refuted. Qed.
 Print Assumptions C11_ista_resume_after_tol_stop_refuted.
 
-(* FISTA: z is a local of run, t a field of self: instalments differ *)
-Theorem C11_fista_run_split_refuted :
-  exists (A : list (list Qc)) (ncols : nat) (y x0 : list Qc) (alpha eps tol : Qc) (sq : Qc -> Qc) (j k : nat),
-    let S0 := fista_solver A ncols y alpha eps tol sq in
-    qv (ix (run S0 (j + k) (run S0 j (is_setup x0)))) <> qv (ix (run S0 (j + k) (is_setup x0))).
-Proof. exact fista_run_split_refuted. Qed.
-Print Assumptions C11_fista_run_split_refuted.
-Example C11_fista_split_at_one_ok : obs_is (run fS 3 (run fS 1 fp0)) = obs_is (run fS 3 fp0).
-Proof. exact fista_split_at_one_ok. Qed.
+(* ---- resumable solvers in general, and FISTA (step stores self.z; run
+   restarts from self.z; only xupdate is re-created) *)
+Theorem C11_run_split_resume : forall (P L : Type) (S0 : solver P L) (Inv : P * L -> Prop),
+  (forall p, Inv (enter S0 p)) -> (forall pl, Inv pl -> Inv (step S0 pl)) ->
+  (forall pl, Inv pl -> step S0 pl = step S0 (enter S0 (fst pl))) -> (forall p, ok S0 (enter S0 p) = true) ->
+  forall j n p, j <= n -> ok S0 (runL S0 j (enter S0 p)) = true -> run S0 n (run S0 j p) = run S0 n p.
+Proof. exact run_split_resume. Qed.
+Print Assumptions C11_run_split_resume.
+
+Theorem C11_progL_then_run : forall (P L : Type) (S0 : solver P L) (Inv : P * L -> Prop),
+  (forall p, Inv (enter S0 p)) -> (forall pl, Inv pl -> Inv (step S0 pl)) ->
+  (forall pl, Inv pl -> step S0 pl = step S0 (enter S0 (fst pl))) -> (forall p, ok S0 (enter S0 p) = true) ->
+  forall N prog pl, Inv pl -> ok S0 pl = true -> safeL S0 N prog pl ->
+  run S0 N (fst (execL S0 prog pl)) = run S0 N (fst pl).
+Proof. exact progL_then_run. Qed.
+Print Assumptions C11_progL_then_run.
+
+Theorem C11_fista_run_split : forall A ncols y alpha eps tol sq j n p, j <= n ->
+  ok (fista_solver A ncols y alpha eps tol sq) (runL (fista_solver A ncols y alpha eps tol sq) j (enter (fista_solver A ncols y alpha eps tol sq) p)) = true ->
+  run (fista_solver A ncols y alpha eps tol sq) n (run (fista_solver A ncols y alpha eps tol sq) j p) =
+  run (fista_solver A ncols y alpha eps tol sq) n p.
+Proof. exact fista_run_split. Qed.
+Print Assumptions C11_fista_run_split.
+Example C11_fista_run_split_nonvacuous :
+  ok fS (runL fS 2 (enter fS fp0)) = true /\ obs_f (run fS (2 + 1) (run fS 2 fp0)) = obs_f (run fS (2 + 1) fp0) /\
+  pi (run fS 3 fp0) = 3 /\ qv (px (run fS 3 fp0)) <> qv (px (run fS 2 fp0)).
+Proof. exact fista_split_example. Qed.
+
+(* every mixed Step / Run driving of FISTA that stays inside the single run *)
+Theorem C11_fista_prog_then_run : forall A ncols y alpha eps tol sq N prog p,
+  safeL (fista_solver A ncols y alpha eps tol sq) N prog (enter (fista_solver A ncols y alpha eps tol sq) p) ->
+  run (fista_solver A ncols y alpha eps tol sq) N
+      (fst (execL (fista_solver A ncols y alpha eps tol sq) prog (enter (fista_solver A ncols y alpha eps tol sq) p))) =
+  run (fista_solver A ncols y alpha eps tol sq) N p.
+Proof. exact fista_prog_then_run. Qed.
+Print Assumptions C11_fista_prog_then_run.
+Example C11_fista_mixed_nonvacuous :
+  safeL fS 4 [Step; Step; Run 3; Step] (enter fS fp0) /\
+  obs_f (fst (execL fS [Step; Step; Run 3; Step] (enter fS fp0))) = obs_f (run fS 4 fp0).
+Proof. exact fista_mixed_example. Qed.
 
 (* ---- inputs intact: ownership analysis is sound for every statement
    sequence and every initial aliasing of the caller's arrays *)
@@ -147,18 +178,11 @@ Theorem C11_regularized_no_caller_write : forall (e : Heap.env) n0 l,
 Proof. exact Heap.regularized_no_caller_write. Qed.
 Print Assumptions C11_regularized_no_caller_write.
 
-(* normal equations: only when Op.rmatvec allocates its result ... *)
-Theorem C11_normal_eq_no_caller_write_partial : forall (e : Heap.env) n0 l,
-  In l (Heap.hwritten (Heap.exec (Heap.normal_eq_setup false) (Heap.caller_heap e n0))) -> n0 <= l.
-Proof. exact Heap.normal_eq_no_caller_write_partial. Qed.
-Print Assumptions C11_normal_eq_no_caller_write_partial.
-(* ... refuted for an operator that returns its input (Identity, inplace=True) *)
-Theorem C11_normal_eq_inplace_refuted :
-  Heap.accepts (Heap.normal_eq_setup true) = false /\
-  exists l, Heap.caller_env Heap.Y = Some l /\
-            In l (Heap.hwritten (Heap.exec (Heap.normal_eq_setup true) (Heap.caller_heap Heap.caller_env 3))).
-Proof. exact Heap.normal_eq_inplace_refuted. Qed.
-Print Assumptions C11_normal_eq_inplace_refuted.
+(* normal equations (one regularisation term, x0 given), also for operators that return their input *)
+Theorem C11_normal_eq_no_caller_write : forall view (e : Heap.env) n0 l,
+  In l (Heap.hwritten (Heap.exec (Heap.normal_eq_setup view) (Heap.caller_heap e n0))) -> n0 <= l.
+Proof. exact Heap.normal_eq_no_caller_write. Qed.
+Print Assumptions C11_normal_eq_no_caller_write.
 
 (* ---- the global N-d switch is restored on the normal and exceptional path *)
 Theorem C11_flag_restored : forall (Out : Type) (b : body Out) flag, snd (with_disabled b flag) = flag.
